@@ -139,6 +139,19 @@ theorem reparse_sem (ρ : Env) (a b c : Q) :
 theorem print_parse (e : Print.E) (hw : Print.wf e = true) : Print.parse (Print.print e) = some e :=
   Proofs.C11.Print.print_parse e hw
 
+/-- Conversely, whatever token sequence the parser accepts yields a well-formed tree whose printed form is that
+    very sequence: `print` is the inverse of `parse` on everything the grammar accepts. -/
+theorem parse_sound (ts : List Print.Tok) (e : Print.E) (h : Print.parse ts = some e) :
+    Print.wf e = true ∧ Print.print e = ts :=
+  Proofs.C11.Print.parse_sound ts e h
+
+/-- ⇒ the property's round trip for the operator core: for every syntactically valid token sequence, the printed
+    form of its tree parses to the same tree (nothing to normalise: the printer neither adds nor drops a
+    parenthesis, they are nodes of the tree). -/
+theorem print_parse_idem (ts : List Print.Tok) (e : Print.E) (h : Print.parse ts = some e) :
+    Print.parse (Print.print e) = some e :=
+  Proofs.C11.Print.parse_print_parse ts e h
+
 /-! ### non-vacuity and witnesses -/
 
 open Print in
@@ -147,9 +160,20 @@ example : wf (.bin .pipe (.bin .comma (.atom "a") (.bin .sub (.bin .sub (.neg (.
     (.bind (.atom "g") "$x" (.bin .alt (.atom "h") (.bin .alt (.brack "if" (.atom "i") (.label "$l" (.atom "j"))) (.bin .cmp (.atom "k") (.atom "l")))))) = true := by decide
 
 open Print in
+/-- `parse_sound` / `print_parse_idem` are not vacuous: a token sequence with binding, chains and postfix parses -/
+example : (parse [.atom "a", .op .sub, .atom "b", .op .sub, .op .sub, .atom "c", .quest, .op .comma, .atom "d", .as_ "$x",
+    .atom "e", .op .alt, .atom "f", .op .alt, .lparen, .atom "g", .op .pipe, .atom "h", .rparen]).isSome = true := by decide
+
+open Print in
 /-- without well-formedness the round trip re-associates: `a - (b - c)` built as a tree prints `a - b - c` -/
 example : parse (print (.bin .sub (.atom "a") (.bin .sub (.atom "b") (.atom "c")))) =
     some (.bin .sub (.bin .sub (.atom "a") (.atom "b")) (.atom "c")) := by decide
+
+open Print in
+/-- the wrapper's chain `(I | try (Q) catch C) | O` is NOT well formed (`|` is right-associative): its printed form
+    parses to `I | (try (Q) catch C | O)` — what `reparseWrapper` models and `reparse_sem` shows harmless -/
+example : parse (print (.bin .pipe (.bin .pipe (.atom "I") (.brack "try" (.paren (.atom "Q")) (.atom "C"))) (.atom "O"))) =
+    some (.bin .pipe (.atom "I") (.bin .pipe (.brack "try" (.paren (.atom "Q")) (.atom "C")) (.atom "O"))) := by decide
 
 open Print in
 /-- a second operator of a non-associative level is a syntax error, as in the fork's grammar -/
